@@ -78,6 +78,7 @@ class Opa:
         self.width = width
         self.max_blocks_inline = max_blocks_inline
         self._cfg = {}
+        self._mutcaps = {}      # closure def -> [(local, path)] captured by mutable reference at its creation site
         self.field_info = {}    # opaque field term -> (field name, field type) as seen at a place projection
         self._memo = {}
         self._stack = []
@@ -180,6 +181,15 @@ class Opa:
                 res.ret = join(res.ret, r, self.width)
             elif k == 'switch':
                 d = self.collapse(self.operand(t['discr'], env), env) or TOP
+                if d[0] == 'discr' and d[1][0] == 'call' and d[1][1] == 'try_branch_option':
+                    # Continue(0) <=> Some(1), Break(1) <=> None(0)
+                    d = ('discr', d[1][2][0])
+                    arms = [[str(1 - int(v)), tgt] for v, tgt in t['arms'] if int(v) in (0, 1)]
+                    other = t['otherwise']
+                    have = {int(v) for v, _ in arms}
+                    if len(have) == 1:
+                        arms.append([str(1 - next(iter(have))), other])
+                    t = {'t': 'switch', 'discr': t['discr'], 'arms': arms, 'otherwise': other}
                 edges = self.decide_switch(d, t, env, seeds)
                 res.switches[bb] = (d, [e[0] for e in edges])
             elif k == 'assert':
@@ -201,6 +211,8 @@ class Opa:
                 argv = [self.collapse(a, env) or TOP for a in raw]
                 env_before = dict(env) if unwind else None
                 rv, inlined = self.call(t, argv, env, seeds, depth)
+                if seeds.get('subst') and rv is not None:
+                    rv = seeds['subst'].get(rv, rv)
                 res.calls[bb] = {'callee': t.get('resolved') or t.get('callee') or '?', 'decl': t.get('callee') or '?',
                                  'args': argv, 'raw': raw, 'dest': t['dest'], 'res': rv, 'line': t['line'],
                                  'inlined': inlined, 't': t, 'pc': env.get(PC, frozenset())}
@@ -360,6 +372,12 @@ class Opa:
             return self.proj(t[1], f, variant)
         if k == 'top':
             return TOP
+        if k == 'call' and t[1] == 'try_branch_option':
+            # ControlFlow::Continue (variant 0) carries the Some payload; Break (variant 1) carries the residual None
+            if variant == 0 and f == 0:
+                return self.proj(t[2][0], 0, 1)
+            if variant == 1 and f == 0:
+                return none()
         return ('field', t, variant, f)
 
     def set_field(self, t, variant, f, v):
@@ -430,6 +448,11 @@ class Opa:
         if k in ('copy', 'move'):
             return self.read_place(o['pl'], env)
         if k == 'int':
+            ty = o.get('ty')
+            if ty in self.facts.adts and self.facts.adts[ty].get('enum'):
+                vi = self.facts.variant_of_discr(ty, int(o['v']))
+                if vi is not None and not self.facts.adts[ty]['variants'][vi]['fields']:
+                    return ('variant', ty, vi, (), self.facts.adts[ty]['variants'][vi]['name'])
             return ('const', int(o['v']))
         if k == 'fn':
             return ('fn', o['path'], o.get('full', o['path']))
@@ -578,6 +601,16 @@ class Opa:
         if r == 'cast':
             return self.operand(rv['o'], env)
         if r == 'agg':
+            if rv['ak'] == 'closure':
+                # remember which local places the closure captures by mutable reference: a call that receives the
+                # closure may mutate them (see mark_mutations)
+                mc = []
+                for o in rv['ops']:
+                    raw = self.operand(o, env)
+                    if raw is not None and raw[0] == 'ref' and len(raw) > 3 and raw[3]:
+                        mc.append((raw[1], raw[2]))
+                if mc:
+                    self._mutcaps[rv['def']] = mc
             ops = tuple(self.collapse(self.operand(o, env), env) or TOP for o in rv['ops'])
             if rv['ak'] == 'tuple':
                 return ('tuple', ops)
@@ -679,12 +712,18 @@ class Opa:
             return
         nm = t.get('callee') if (t.get('trait') and not t.get('local')) else (t.get('resolved') or t.get('callee') or '?')
         ct = ('call', nm, tuple(argv))
+        targets = []
         for a in raw:
             if a is not None and a[0] == 'ref' and len(a) > 3 and a[3]:
-                old = self._read_path(a[1], a[2], env)
-                new = ('mut', old if old is not None else TOP, ct)
-                base = env.get(a[1])
-                env[a[1]] = self._upd_path(base if base is not None else TOP, list(a[2]), new)
+                targets.append((a[1], a[2]))
+        for a in argv:
+            if a is not None and a[0] == 'closure' and a[1] in self._mutcaps:
+                targets.extend(self._mutcaps[a[1]])
+        for (loc, path) in targets:
+            old = self._read_path(loc, path, env)
+            new = ('mut', old if old is not None else TOP, ct)
+            base = env.get(loc)
+            env[loc] = self._upd_path(base if base is not None else TOP, list(path), new)
 
     def call(self, t, argv, env, seeds, depth):
         decl = t.get('callee') or '?'
@@ -709,9 +748,16 @@ class Opa:
             return ('call', res, tuple(argv)), False
         if decl in IDENTITY_DECLS and len(argv) == 1:
             return argv[0], False
+        if strip_generics(res) == 'std::num::NonZero::get' and len(argv) == 1:
+            return argv[0], False       # the integer inside a NonZero: same origin
         if decl in ('std::convert::Into::into', 'std::convert::From::from') and len(argv) == 1 and NONZERO_RE.search(full) \
                 and ('usize as std::convert::From' in full or 'as std::convert::Into<usize>' in full):
             return argv[0], False
+        # `x?` on an Option: branch(x) is Continue(payload) iff x is Some; from_residual(None) is None
+        if decl == 'std::ops::Try::branch' and len(argv) == 1 and 'std::option::Option<' in full.split(' as ')[0]:
+            return ('call', 'try_branch_option', (argv[0],)), False
+        if decl == 'std::ops::FromResidual::from_residual' and 'std::option::Option<' in full.split(' as ')[0]:
+            return none(), False
         # external trait methods are named by their declared (trait) path so that terms are uniform
         name = decl if (t.get('trait') and not t.get('local')) else res
         if not argv:
@@ -729,6 +775,10 @@ class Opa:
         """a handful of std callees with an exact meaning on fully known arguments"""
         p = strip_generics(callee)
         a0 = argv[0] if argv else None
+        if p in ('std::cmp::PartialEq::eq', 'std::cmp::PartialEq::ne') and len(argv) == 2 and \
+                all(x is not None and x[0] == 'variant' and not x[3] for x in argv) and argv[0][1] == argv[1][1]:
+            same = argv[0][2] == argv[1][2]
+            return ('const', int(same if p.endswith('::eq') else not same))
         if p in ('std::option::Option::is_some', 'std::option::Option::is_none') and a0 is not None:
             if a0[0] == 'variant' and a0[1] == 'std::option::Option':
                 v = a0[2] == 1
